@@ -72,9 +72,16 @@ def generator_adts(crate):
 def op_roots(crate, adt_paths):
     """all methods of all impls whose self type is a generator ADT"""
     roots = []
+    generic_adts = {a["path"] for a in crate.facts["adts"] if a.get("generics")}
     for im in crate.facts["impls"]:
         if im.get("self_adt") in adt_paths:
-            roots.extend(im["methods"].values())
+            for key in im["methods"].values():
+                b = crate.bodies.get(key)
+                if b is not None and im.get("trait") is None and not b.get("pub", True) and b.get("poly") and im["self_adt"] not in generic_adts:
+                    # a private helper with type parameters of its own: its uninstantiated body has unresolved trait calls;
+                    # the instances the public operations use are reached through them
+                    continue
+                roots.append(key)
     return roots
 
 
@@ -143,7 +150,7 @@ def run(chk, tier):
             roots = op_roots(crate, paths)
             roots_wo_new = [r for r in roots if r != NEW_ROOT]
             summarised = lambda c: (c.get("rdef") in prims.TABLE or c.get("def") in prims.TABLE)
-            seen, leaves = sq.reachable(crate.bodies, roots_wo_new, summarised)
+            seen, leaves = sq.reachable(crate.bodies, roots_wo_new, summarised, crate.tys)
             for k in seen:
                 chk.body(k)
             nstat = 0
@@ -168,7 +175,7 @@ def run(chk, tier):
                    sample={"crate": cname, "config": config, "reachable_bodies": len(seen), "bodyless_call_sites": len(leaves)})
             chk.ob("R3", "%s[%s]|no static access reachable" % (cname, config), nstat == 0, "%d accesses" % nstat, nontrivial=False)
             if NEW_ROOT in crate.bodies:
-                seen2, leaves2 = sq.reachable(crate.bodies, [NEW_ROOT], summarised)
+                seen2, leaves2 = sq.reachable(crate.bodies, [NEW_ROOT], summarised, crate.tys)
                 bad2 = []
                 for caller, c, sp in leaves2:
                     d = c.get("rdef") or c.get("def") or "indirect"
